@@ -48,7 +48,7 @@ def run(ctx):
     ctx.cov["classes"] = cls
     ctx.distinct += len({(tuple(e["factors"]), e["b"], e["rank"], e["referred"]) for e in qev})
     # 3. wide tier: arbitrary / boundary factors at the real unit, program = SDK, Apalache
-    n = 200 if q else 2000
+    n = 200 if q else 1000
     wp, wst, wm = ctx.path("wide.ndjson"), ctx.path("wstores.bin"), ctx.path("wide-merged.ndjson")
     ctx.run_bin("c31", ["wide", "--seed", ctx.seed, "--n", n, "--out", wp, "--stores", wst])
     ctx.run_bin("c31s", ["merge", "--in", wp, "--stores", wst, "--out", wm])
